@@ -45,11 +45,11 @@ type ClosureResult struct {
 func keyNoTime(s *State) string {
 	h := sha256.New()
 	for _, o := range s.Objs {
-		b, _ := json.Marshal(o)
+		b, _ := json.Marshal(o.O)
 		var v interface{}
 		_ = json.Unmarshal(b, &v)
 		nb, _ := json.Marshal(dropTimes(v))
-		h.Write([]byte(kindOf(o)))
+		h.Write([]byte(o.Kind))
 		h.Write(nb)
 	}
 	return fmt.Sprintf("%x", h.Sum(nil)[:12])
